@@ -5,7 +5,7 @@
    matchers of type_pattern.cpp, ResolutionMap::bind_*, RankAccumulator).
    "Specificity" is the effective rank the code computes (candidate rank +
    adaptation adjustments); lower is more specific. *)
-Require Import Base Resolve ResolveFacts ResolveMatchFacts ResolveSubstFacts ResolveCompleteFacts.
+Require Import Base Resolve ResolveFacts ResolveMatchFacts ResolveSubstFacts ResolveCompleteFacts ResolveInheritFacts.
 From Coq Require Import ZifyBool Permutation.
 
 (* ---- registration order does not matter ------------------------------------------------ *)
@@ -95,12 +95,14 @@ Print Assumptions match_sound.
 (* Completeness: whenever SOME substitution sg above the current map makes the pattern an
    instance of the argument, the matcher succeeds and its result stays below sg — it is the least
    consistent assignment.  So a failed match means that no consistent assignment exists.
-   ([no_bv]: no TSB schema variable, which compares up to bundle names.) *)
+   ([no_bv]: no TSB schema variable, which compares up to bundle names.  [no_bundle_binding]: no scalar
+   variable bound to a named bundle — the input direction lets such a variable take any descendant bundle,
+   which makes f(TS[~T], TS[~T]) accept (TS[Base], TS[Derived]) but not (TS[Derived], TS[Base]).) *)
 Theorem match_complete :
   (forall p s m sg, extends m sg -> sinst sg p s = true -> exists m', smatch p s m = Some m' /\ extends m' sg) /\
   (forall p, no_bv p = true -> forall t m sg, extends m sg -> tinst sg p t = true ->
              exists m', tmatch p t m = Some m' /\ extends m' sg) /\
-  (forall p, no_bv p = true -> forall t m sg, extends m sg -> iinst sg p t = true ->
+  (forall p, no_bv p = true -> forall t m sg, no_bundle_binding sg -> extends m sg -> iinst sg p t = true ->
              exists m', imatch p t m = Some m' /\ extends m' sg).
 Proof.
   exact (conj ResolveCompleteFacts.smatch_complete (conj ResolveCompleteFacts.tmatch_complete
@@ -142,7 +144,8 @@ Print Assumptions bind_rejects_inconsistent_rebinding.
    accepts its argument under the one final map (every type variable has one type across
    all positions); a requested output is accepted by the output pattern; the output
    pattern resolves; the output_required flag is honoured; the effective rank is the
-   candidate's rank plus the number of defaults used plus at most one per argument.
+   candidate's rank plus the number of defaults used plus, per argument ([arg_cost]): the inheritance
+   distance for a concrete TS[Base] leaf taking a TS[Derived], 1 for a promoted constant, 1 for a coerced scalar.
    [nargs] is the normalised call (see [normalize_call_spec]). *)
 Theorem accepted_candidate_matches : forall c q m k,
   try_match c q = TMOk m k ->
@@ -153,7 +156,7 @@ Theorem accepted_candidate_matches : forall c q m k,
   (c_has_out c = true -> exists t, tresolve (c_out c) m = Some t) /\
   (c_has_out c = true -> forall e, q_expected q = Some e -> oinst m (c_out c) e = true) /\
   (forall b, q_outreq q = Some b -> c_has_out c = b) /\
-  c_rank c + dused <= k <= c_rank c + dused + Z.of_nat (length (c_params c)).
+  k = c_rank c + dused + args_cost (c_params c) nargs.
 Proof. exact ResolveMatchFacts.try_match_sound_lemma. Qed.
 Print Assumptions accepted_candidate_matches.
 
@@ -260,6 +263,54 @@ Theorem specific_ts_pattern_wins_refuted :
     resolve [specific; generic] q = OSel s /\ s_cand s = generic.
 Proof. exact ResolveSubstFacts.specific_ts_pattern_wins_refuted_lemma. Qed.
 Print Assumptions specific_ts_pattern_wins_refuted.
+
+(* ---- nominal bundle inheritance -------------------------------------------------------------- *)
+
+(* bundle_inheritance_distance does not depend on the order in which any bundle of the ancestry declares
+   its parents ([hsame]: the same hierarchy up to parent order at every level); so neither do bundle_is_a
+   and the adaptation rank built from it *)
+Theorem inheritance_distance_order_independent : forall b c c',
+  hsame c c' ->
+  bdist b c = bdist b c' /\
+  (forall base, bundle_id base = Some b -> bundle_is_a c base = bundle_is_a c' base /\
+                                            bundle_distance c base = bundle_distance c' base).
+Proof. exact ResolveInheritFacts.inheritance_distance_order_independent_lemma. Qed.
+Print Assumptions inheritance_distance_order_independent.
+
+(* ... and it is the length of the SHORTEST chain of parent edges ([bpath b k c]: a chain of k parent
+   edges from c up to the bundle named b); None exactly when there is no chain *)
+Theorem inheritance_distance_is_shortest_path : forall b c,
+  (forall k, bdist b c = Some k -> bpath b k c /\ forall j, bpath b j c -> (k <= j)%nat) /\
+  (bdist b c = None -> forall j, ~ bpath b j c).
+Proof. exact ResolveInheritFacts.inheritance_distance_is_shortest_path_lemma. Qed.
+Print Assumptions inheritance_distance_is_shortest_path.
+
+(* the hierarchy of seeded change C19w3-inheritance-distance-first-path: two paths of different length to
+   the shared ancestor Tradable; ListedOption(Listed, Option) and its mirror OptionListed(Option, Listed) *)
+Definition h_instrument := SBundle 1 [].
+Definition h_tradable := SBundle 2 [h_instrument].
+Definition h_derivative := SBundle 3 [h_tradable].
+Definition h_option := SBundle 4 [h_derivative].
+Definition h_record := SBundle 5 [].
+Definition h_reportable := SBundle 6 [h_record].
+Definition h_regulated := SBundle 7 [h_reportable].
+Definition h_listed := SBundle 8 [h_tradable; h_regulated].
+Definition h_listed_option := SBundle 9 [h_listed; h_option].
+Definition h_option_listed := SBundle 10 [h_option; h_listed].
+Example c19_diamond_distances :
+  map (fun leaf => map (fun b => bdist b leaf) [1; 2; 6; 5; 3; 9; 10]) [h_listed_option; h_option_listed] =
+    [[Some 3; Some 2; Some 3; Some 4; Some 2; Some 0; None]; [Some 3; Some 2; Some 3; Some 4; Some 2; None; Some 0]]%nat /\
+  (forall leaf, In leaf [h_listed_option; h_option_listed] ->
+     let on (label : Z) (b : sty) := mk_cand label false PSignal [PIn (PConc (TTs b))] in
+     let call := mkQuery None None empty_rmap [] [ATs (TTs leaf)] in
+     (* Instrument (3) and Reportable (3) tie; Record (4) loses; Tradable (2) beats Instrument (3) *)
+     (exists tied, resolve [on 1 h_instrument; on 2 h_reportable; on 3 h_record] call = OAmb tied /\ length tied = 2%nat) /\
+     (exists s, resolve [on 1 h_instrument; on 2 h_tradable; on 3 h_record] call = OSel s /\ c_label (s_cand s) = 2 /\ s_rank s = 2) /\
+     resolve [on 1 (SBundle 11 [])] call = ONoMatch).
+Proof.
+  split; [vm_compute; reflexivity|]. intros leaf [<-|[<-|[]]]; vm_compute;
+    (split; [eexists; split; reflexivity | split; [eexists; repeat split; reflexivity | reflexivity]]).
+Qed.
 
 (* ---- rank ---------------------------------------------------------------------------------------- *)
 
